@@ -13,7 +13,6 @@
      first_max_on a lo hi i       i is the first position of the maximum of a on [lo, hi)
      sg v                         -1 if v > 0 else 1 : the factor that makes a peak of value v point down
      within_half pv v             v is back within half of the peak value pv (0 < pv: 2v < pv;  pv < 0: pv < 2v)
-     dpos x pk0                   the F-C14-b input class: x[pk0] > 0 and every later sample >= x[pk0]/1.5
    Domain: all integer-valued waveforms of every size (no bound on T, C or the values). *)
 From Coq Require Import ZArith List Bool Lia.
 From IBL.C14 Require Import Model Proofs.
@@ -58,14 +57,15 @@ Theorem C14_order_trough_recovery : forall k w T C f, rect w T C -> features1 k 
 Proof. exact pub_order. Qed.
 Print Assumptions C14_order_trough_recovery.
 
-(* Outside the F-C14-b class: the tip is the first largest opposite deflection
-   before the peak, every reported value is the trace sample at the reported
-   index, and the half-peak points are the nearest samples after / before the
-   peak that are back within half of the peak value (0 resp. T-1 when there is
-   none: NumPy's argmax of an all-False row). *)
-Theorem C14_tip_halfpeak_values : forall k w T C f pk0, rect w T C -> features1 k w = Some f ->
+(* The tip is the first largest opposite deflection before the peak, every
+   reported value is the trace sample at the reported index, and the half-peak
+   points are the nearest samples after / before the peak that are back within
+   half of the peak value (0 resp. T-1 when there is none: NumPy's argmax of an
+   all-False row).  Since the repair e0eff43 this holds for every successful
+   call (before it, it failed for a positive peak that stays positive after the
+   peak/trough swap: F-C14-b). *)
+Theorem C14_tip_halfpeak_values : forall k w T C f, rect w T C -> features1 k w = Some f ->
   let x := trace_of w (f_trace f) in
-  is_extremum w T C (f_trace f) pk0 -> ~ dpos x pk0 ->
   let W t := within_half (f_peak_val f) (nth t x 0) in
   first_max_on (map (Z.mul (f_sign f)) x) 0 (f_peak f) (f_tip f) /\
   f_tip_val f = nth (f_tip f) x 0 /\
@@ -77,54 +77,6 @@ Theorem C14_tip_halfpeak_values : forall k w T C f pk0, rect w T C -> features1 
   ((forall t, (t < f_peak f)%nat -> ~ W t) -> f_hpre f = (T - 1)%nat).
 Proof. exact pub_consistent. Qed.
 Print Assumptions C14_tip_halfpeak_values.
-
-(* F-C14-b, for every waveform of the class: positive extremum followed only by
-   samples >= peak/1.5 (e.g. on the last sample).  The swap keeps a positive
-   peak, the sign flag is -1 but the stored trace is not inverted: tip /
-   half-peak / recovery values are the NEGATED trace samples, the tip is the
-   largest same-sign sample, half_peak_post is the peak itself and
-   half_peak_pre is the nearest sample ABOVE MINUS half the peak. *)
-Theorem C14_doubly_positive_class : forall k w T C f pk0, rect w T C -> features1 k w = Some f ->
-  let x := trace_of w (f_trace f) in
-  is_extremum w T C (f_trace f) pk0 -> dpos x pk0 ->
-  0 < f_peak_val f /\ f_sign f = -1 /\
-  first_max_on x 0 (f_peak f) (f_tip f) /\
-  f_tip_val f = - nth (f_tip f) x 0 /\
-  f_hpost_val f = - nth (f_hpost f) x 0 /\ f_hpre_val f = - nth (f_hpre f) x 0 /\
-  f_rec_val f = - nth (f_rec f) x 0 /\
-  f_hpost f = f_peak f /\
-  (forall t, (t < f_peak f)%nat -> - f_peak_val f < 2 * nth t x 0 ->
-             (t <= f_hpre f < f_peak f)%nat /\ - f_peak_val f < 2 * nth (f_hpre f) x 0).
-Proof. exact pub_dpos. Qed.
-Print Assumptions C14_doubly_positive_class.
-
-(* ... and therefore the half-peak clause (and "values are trace samples") of
-   the property FAILS on the faithful model: witness = one trace rising to its
-   maximum on the last sample.  Confirmed on the real code (notes). *)
-Definition wit_trace : list Z := [0; 1; -2; 3; -1; 4; 6; 3; 1; 0; 5; 10].
-Definition wit : list (list (option Z)) := map (fun v => [Some v]) wit_trace.
-
-Theorem C14_half_peak_refuted : exists w f,
-  rect w 12 1 /\
-  (exists t c, (1 <= t < 12)%nat /\ (c < 1)%nat /\
-     forall c', (c' < 1)%nat -> Z.abs (smp w 0 c') < Z.abs (smp w t c)) /\
-  features1 5 w = Some f /\
-  let x := trace_of w (f_trace f) in
-  (exists t, (t < f_peak f)%nat /\ within_half (f_peak_val f) (nth t x 0)) /\
-  ~ within_half (f_peak_val f) (nth (f_hpre f) x 0) /\
-  f_tip_val f <> nth (f_tip f) x 0.
-Proof.
-  exists wit. eexists. split; [|split; [|split; [vm_compute; reflexivity|]]].
-  - split; [reflexivity|]. intros row Hin. unfold wit in Hin. apply in_map_iff in Hin.
-    destruct Hin as (v & <- & _). reflexivity.
-  - exists 11%nat, 0%nat. split; [lia|]. split; [lia|].
-    intros c' Hc'. assert (c' = 0)%nat by lia. subst c'. vm_compute. reflexivity.
-  - cbv zeta. split; [|split].
-    + exists 9%nat. split; [vm_compute; lia|]. left. vm_compute. split; reflexivity.
-    + intros [[_ H]|[H _]]; vm_compute in H; discriminate.
-    + vm_compute. discriminate.
-Qed.
-Print Assumptions C14_half_peak_refuted.
 
 (* Scaling by c > 0 (integer; two waveforms related by a positive rational factor
    are both integer multiples of a common one): indices unchanged, values x c.
@@ -169,19 +121,25 @@ Definition ex_w : list (list (option Z)) :=
 Example ex_features : features1 5 ex_w =
   Some (mkF 1 2 (-30) 1 4 12 1 2 3 1 (-8) 2 9 0).
 Proof. vm_compute. reflexivity. Qed.
-Example ex_extremum : is_extremum ex_w 10 2 1 2 /\ ~ dpos (trace_of ex_w 1) 2.
+Example ex_extremum : is_extremum ex_w 10 2 1 2.
 Proof.
-  split.
-  - unfold is_extremum. split; [lia|]. split; [lia|]. split; [|split].
-    + intros t c Ht Hc. do 10 (destruct t as [|t]; [do 2 (destruct c as [|c]; [vm_compute; discriminate|]); lia|]). lia.
-    + intros t c Ht Hc. assert (c = 0)%nat by lia. subst c.
-      do 10 (destruct t as [|t]; [vm_compute; reflexivity|]). lia.
-    + intros t Ht. do 2 (destruct t as [|t]; [vm_compute; reflexivity|]). lia.
-  - intros [H _]. vm_compute in H. discriminate.
+  unfold is_extremum. split; [lia|]. split; [lia|]. split; [|split].
+  - intros t c Ht Hc. do 10 (destruct t as [|t]; [do 2 (destruct c as [|c]; [vm_compute; discriminate|]); lia|]). lia.
+  - intros t c Ht Hc. assert (c = 0)%nat by lia. subst c.
+    do 10 (destruct t as [|t]; [vm_compute; reflexivity|]). lia.
+  - intros t Ht. do 2 (destruct t as [|t]; [vm_compute; reflexivity|]). lia.
 Qed.
 (* a positive spike whose trough triggers the swap (ratio 10/8 <= 1.5), in a batch with the one above *)
 Definition ex_w2 : list (list (option Z)) :=
   map (fun v => [Some v; Some 0]) [0; 1; 2; 10; -3; -8; 6; 3; 1; 0].
 Example ex_batch : batch_features 5 [ex_w; ex_w2] =
   Some [mkF 1 2 (-30) 1 4 12 1 2 3 1 (-8) 2 9 0; mkF 0 5 (-8) 1 6 6 3 10 6 4 6 (-3) 9 0].
+Proof. vm_compute. reflexivity. Qed.
+
+(* the former F-C14-b witness (positive peak on the last sample, still positive after
+   the swap): tip = the lowest sample before the peak (t=2, -2), half_peak_pre = the
+   nearest sample below half the peak (t=9, 0), values are the trace samples *)
+Definition wit : list (list (option Z)) :=
+  map (fun v => [Some v]) [0; 1; -2; 3; -1; 4; 6; 3; 1; 0; 5; 10].
+Example ex_former_witness : features1 5 wit = Some (mkF 0 11 10 (-1) 11 10 2 (-2) 0 9 0 0 11 10).
 Proof. vm_compute. reflexivity. Qed.
